@@ -216,6 +216,9 @@ func applyModelDefect(c *SSOCase, d Defect, host string) {
 			h += "."
 		}
 		r.Destination = sch + "://" + h + "/" + p
+		if r.Destination == adv {
+			r.Destination = adv + "?" // an IP literal has no trailing-dot form: another near miss instead
+		}
 	case "dest-of-other-tenant":
 		// the location this IdP advertises under another request host: valid there, not here
 		r.Destination = c.Spec.IdP.Advertised("sso", d.Param)
